@@ -1,7 +1,7 @@
 #!/bin/bash
 # process_mutant.sh <worktree> <id> <property> "<needs>" <check>... : verify a sub-agent's seeded change, store it, run the named quick checks on it
 WT=$1; ID=$2; PROP=$3; NEEDS=$4; shift 4
-cd /verif
+cd ${VERIF_HOME:-/verif}
 V=$(selftest/verify_mutant.sh $WT 2>&1 | tail -1)
 echo "$ID verify: $V"
 [ "$V" = CONFIRMED ] || exit 1
@@ -14,7 +14,7 @@ for C in "$@"; do
 done
 python3 - $ID "${res[@]}" <<'PY'
 import json,sys
-p='/verif/seeded/%s/meta.json'%sys.argv[1]; d=json.load(open(p))
+import os; p=os.environ.get('VERIF_HOME','/verif')+'/seeded/%s/meta.json'%sys.argv[1]; d=json.load(open(p))
 d['checks_run']=[{'check':x.split(':')[0],'tier':'quick','result':{'1':'VIOLATION reported (exit 1)','0':'not detected (exit 0)','2':'machinery fault (exit 2)'}.get(x.split(':')[1],x.split(':')[1])} for x in sys.argv[2:]]
 json.dump(d,open(p,'w'),indent=1)
 PY
